@@ -411,6 +411,26 @@ class XCsr:
                 self.entries[(i, c)] = v
         self._rebuild()
 
+    def __getitem__(self, key):
+        """A[rows]: the matrix of the selected rows (one row per entry of the index list, in its order)"""
+        if isinstance(key, tuple):
+            raise AnalysisError("csr_matrix[row, col] read is not modelled")
+        rows = [int(exact_(x)) for x in (XArray.from_nested(key).data if not isinstance(key, (int, Fraction)) else [key])]
+        out = XCsr((len(rows), self.shape[1]))
+        for k, i in enumerate(rows):
+            if not -self.shape[0] <= i < self.shape[0]:
+                raise XRaise("IndexError", f"row index {i} out of range")
+            i %= self.shape[0]
+            for (a, c), v in self.entries.items():
+                if a == i:
+                    out.entries[(k, c)] = v
+        out._rebuild()
+        return out
+
+    def nonzero(self):
+        keys = sorted(k for k, v in self.entries.items() if not (isinstance(v, (int, Fraction)) and v == 0))
+        return XArray((len(keys),), [i for i, _ in keys], "i"), XArray((len(keys),), [j for _, j in keys], "i")
+
     def row_sum(self, i):
         return sum((v for (a, _), v in self.entries.items() if a == i), 0)
 
